@@ -1,6 +1,7 @@
 import Ktm.Sync
 import Ktm.SyncOrig
 import Ktm.SyncMulti
+import Ktm.SyncPre
 /-! # C17 — oracle operations are mutually exclusive, linearizable and never wedge
 
 Model (`Ktm/Sync.lean`): the repaired `synchronized` wrapper as a small-step system over its shared
@@ -94,5 +95,19 @@ def demoSched : List (Nat × Bool) :=
 def demoF (t s : Nat) : Nat := 3 * s + t + 1
 example : (run demoF (init 0) demoSched).st = 1 ∧ (run demoF (init 0) demoSched).log = [0] ∧
     (run demoF (init 0) demoSched).held = none ∧ (run demoF (init 0) demoSched).owner = none := by decide
+
+/-- a wrapper that reads shared state only inside the critical section (the legacy `end_trial(trial_id, status)` conversion after
+the repair of F23): for EVERY schedule of any number of space-growing calls and the legacy call, the snapshot it records is the value
+of the sequential run in lock order … -/
+theorem reads_under_the_lock_are_sequential (es : List SyncPre.Ev) :
+    ∀ v, (SyncPre.runFix SyncPre.init es).lpc = .done v → v = SyncPre.sequentialSnapshot (0 + SyncPre.growsBeforeLegacy es) :=
+  SyncPre.fix_snapshot_is_sequential es SyncPre.init rfl
+
+/-- … whereas a read ahead of the lock (the original wrapper) records, on a three-step schedule, a snapshot that the call's own
+place in the lock order does not allow -/
+theorem read_ahead_of_the_lock_is_not (_ : Unit) :
+    (SyncPre.runOrig SyncPre.init SyncPre.badSchedule).lpc = .done 0 ∧ (SyncPre.runOrig SyncPre.init SyncPre.badSchedule).s = 1 ∧
+    (SyncPre.runFix SyncPre.init [.grow, .legacyStep]).lpc = .done 1 :=
+  ⟨SyncPre.orig_records_stale_snapshot.1, SyncPre.orig_records_stale_snapshot.2, SyncPre.fix_on_the_same_schedule.2⟩
 
 end Props.C17
